@@ -67,7 +67,7 @@ PatchFlagWhy(el, ov, o) ==
 RECURSIVE BoundIdentBelow(_)
 BoundIdentBelow(cs) ==      \* a direct child that is a file-bound identifier, here or reached by direct JSX nesting
   \E i \in 1..Len(cs) :
-     \/ (cs[i].k \in {"expr", "spread"} /\ cs[i].e.k = "ident" /\ cs[i].e.bound)
+     \/ (cs[i].k \in {"expr", "spread"} /\ Peel(cs[i].e).k = "ident" /\ Peel(cs[i].e).bound)
      \/ (cs[i].k = "elem" /\ BoundIdentBelow(cs[i].el.children))
 
 SlotFlagWhy(el, ov, o) ==
@@ -75,7 +75,7 @@ SlotFlagWhy(el, ov, o) ==
   ELSE IF ~o.optimize THEN (IF ov.children.flag.t # "none" THEN "slot-flag-without-optimize" ELSE "")
   ELSE IF ov.children.flag.t = "none" THEN
          (IF el.children = <<>> \/ (Len(el.children) = 1 /\ el.children[1].k = "expr"
-                                    /\ el.children[1].e.k \in {"ident", "call", "arrow", "fnexpr"})
+                                    /\ Peel(el.children[1].e).k \in {"ident", "call", "arrow", "fnexpr"})
           THEN "" ELSE "slot-object-without-flag")      \* pass-through values are the user's objects
   ELSE IF ov.children.flag.t # "num" \/ ov.children.flag.n \notin {1, 2} THEN "slot-flag-not-1-or-2"
   ELSE IF BoundIdentBelow(el.children) /\ ov.children.flag.n # 2 THEN "stable-slot-flag-with-bound-identifier-child"
